@@ -7,9 +7,57 @@ using namespace vf;
 
 namespace
 {
+// A bump arena whose allocate(0) hands out the current position without advancing (the result of a zero-size request is
+// unspecified, this is what monotonic arenas do): the zero-byte block of a capacity-0 vector and the block of the vector
+// created next then have the SAME address. Address tables go to a second region so that the data blocks stay adjacent.
+struct Bump
+{
+    alignas(64) unsigned char data[1 << 15];
+    alignas(64) unsigned char tables[1 << 12];
+    size_t cur_data = 0, cur_tables = 0;
+};
+
+template <class T>
+struct BumpAlloc
+{
+    using value_type = T;
+    using is_always_equal = std::false_type;
+    Bump* arena = nullptr;
+    BumpAlloc() = default;
+    explicit BumpAlloc(Bump* a) noexcept : arena(a) {}
+    template <class U>
+    BumpAlloc(const BumpAlloc<U>& o) noexcept : arena(o.arena)
+    {
+    }
+    T* allocate(std::size_t n)
+    {
+        constexpr bool TABLE = std::is_same_v<T, std::size_t>;
+        unsigned char* base = TABLE ? arena->tables : arena->data;
+        size_t& cur = TABLE ? arena->cur_tables : arena->cur_data;
+        const size_t cap = TABLE ? sizeof arena->tables : sizeof arena->data;
+        cur = (cur + alignof(T) - 1) / alignof(T) * alignof(T);
+        if (cur + n * sizeof(T) > cap) throw std::bad_alloc();
+        T* p = reinterpret_cast<T*>(base + cur);
+        cur += n * sizeof(T);
+        return p;
+    }
+    void deallocate(T*, std::size_t) noexcept {}
+    template <class U>
+    friend bool operator==(const BumpAlloc& a, const BumpAlloc<U>& b) noexcept
+    {
+        return a.arena == b.arena;
+    }
+    template <class U>
+    friend bool operator!=(const BumpAlloc& a, const BumpAlloc<U>& b) noexcept
+    {
+        return a.arena != b.arena;
+    }
+};
+
 template <class Cfg, class K>
 struct Engine
 {
+    using VecC = typename Cfg::template Vec<BumpAlloc<std::byte>>;
     using AllocA = LedgerAlloc<std::byte, K>;
     using AllocB = LedgerAlloc<std::byte, Kind<true, false, false, false>>;
     using VecA = typename Cfg::template Vec<AllocA>;
@@ -23,6 +71,7 @@ struct Engine
     int64_t case_no = 0;
     uint64_t pairs_checked = 0, triples_checked = 0, comparisons = 0, vec_pairs = 0;
     uint64_t nontrivial_pairs = 0;
+    uint64_t shared_address_pairs = 0;
     std::vector<std::string> trace;
     uint64_t hash = 0;
 
@@ -149,7 +198,12 @@ struct Engine
     V build(const std::vector<MElem>& es, const std::vector<size_t>& fixed, size_t extra_cap, size_t extra_bytes, int arena, int junk)
     {
         ledger().junk = junk;
-        typename V::allocator_type alloc{arena};
+        return build_with<V>(es, fixed, extra_cap, extra_bytes, typename V::allocator_type{arena});
+    }
+
+    template <class V>
+    V build_with(const std::vector<MElem>& es, const std::vector<size_t>& fixed, size_t extra_cap, size_t extra_bytes, const typename V::allocator_type& alloc)
+    {
         const size_t n = es.size() + extra_cap;
         const size_t bytes = payload(es) + extra_bytes;
         auto make = [&]() -> V
@@ -366,6 +420,21 @@ struct Engine
         // defined on it)
         const VecA dflt_a{};
         const VecB dflt_b{};
+        // a capacity-0 vector and a vector whose block starts at the same address (bump arena): still two different vectors
+        for (size_t y = 0; y < L && !out().viol_in_case; ++y)
+        {
+            std::vector<MElem> seq;
+            for (size_t idx : lv[y]) seq.push_back(es[idx]);
+            const auto& fx = (!lv[y].empty() && lv[y][0] >= n_same) ? fixed2 : fixed;
+            auto bump = std::make_unique<Bump>();
+            const VecC e0 = build_with<VecC>({}, fx, 0, 0, BumpAlloc<std::byte>{bump.get()});
+            const VecC f = build_with<VecC>(seq, fx, 0, 0, BumpAlloc<std::byte>{bump.get()});
+            if (e0.data_begin() == f.data_begin()) ++shared_address_pairs;
+            const unsigned want_ef = cmp6(std::as_const(va1[0]), std::as_const(va1[y])), want_fe = cmp6(std::as_const(va1[y]), std::as_const(va1[0]));
+            const unsigned got_ef = cmp6(e0, f), got_fe = cmp6(f, e0);
+            if (got_ef != want_ef || got_fe != want_fe)
+                viol("C13,C14,C18", "vector_representation_dependence", fmt("capacity-0 vector vs vector %zu allocated right behind it (same block address: %d): %02x / %02x, expected %02x / %02x", y, int(e0.data_begin() == f.data_begin()), got_ef, got_fe, want_ef, want_fe));
+        }
         std::vector<unsigned> VR(L * L, 0);
         for (size_t x = 0; x < L; ++x)
             for (size_t y = 0; y < L; ++y)
@@ -481,6 +550,7 @@ int main(int argc, char** argv)
     cn.add("element_pairs", e.pairs_checked);
     cn.add("vector_pairs", e.vec_pairs);
     cn.add("triples", e.triples_checked);
+    cn.add("empty_vs_vector_at_same_block_address", e.shared_address_pairs);
     cn.add("operator_evaluations", e.comparisons * 6);
     emit(J().kv("t", "summary").raw("ops", cn.json()).raw("counters", counters().json()).kv("steps", e.pairs_checked).kv("avoided", 0).raw("prestate_op", "[]").kv("objects_constructed", registry().constructed).kv("objects_destroyed", registry().destroyed).kv("alloc_events", ledger().alloc_events).kv("dealloc_events", ledger().dealloc_events).str());
     return 0;
